@@ -112,8 +112,30 @@ pub fn guard<T>(f: impl FnOnce() -> T) -> Result<T, String> {
     std::panic::catch_unwind(std::panic::AssertUnwindSafe(f)).map_err(|p| panic_msg(&p))
 }
 
+/// C18 mode: this process is the instrumented (`checked` profile / sanitizer) re-execution of
+/// another check's space; only precondition failures count.
+pub fn c18_mode() -> Option<String> {
+    std::env::var("VERIF_C18").ok().filter(|s| !s.is_empty())
+}
+
+pub fn is_precondition_failure(what: &str) -> bool {
+    what.contains("assertion failed") || what.contains("unsafe precondition") || what.contains("invalid UTF-8") || what.contains("is_char_boundary")
+}
+
 pub fn quiet_panics() {
-    std::panic::set_hook(Box::new(|_| {}));
+    if c18_mode().is_some() {
+        // keep the first messages: a non-unwinding panic (library UB check) aborts the process and
+        // its message is the only trace
+        static N: AtomicU64 = AtomicU64::new(0);
+        std::panic::set_hook(Box::new(|info| {
+            let msg = info.to_string();
+            if (msg.contains("unsafe precondition") || msg.contains("assertion failed")) && N.fetch_add(1, Ordering::Relaxed) < 20 {
+                eprintln!("PANIC: {msg}");
+            }
+        }));
+    } else {
+        std::panic::set_hook(Box::new(|_| {}));
+    }
 }
 
 fn fnv(s: &str) -> u64 {
@@ -201,6 +223,24 @@ impl Check {
         self.start.elapsed().as_secs_f64()
     }
 
+    /// Writes the evidence file without printing verdict lines (the caller already printed them).
+    pub fn write_evidence_only(self, rule: &str, violations: u64) {
+        let mut cov = self.extra.into_inner().unwrap();
+        cov.insert("evaluations".into(), json!(self.evals.load(Ordering::Relaxed)));
+        cov.insert("distinct_nontrivial".into(), json!(self.nontrivial.load(Ordering::Relaxed)));
+        cov.insert("rule".into(), json!(rule));
+        cov.insert("samples".into(), Value::Array(self.samples.into_inner().unwrap()));
+        cov.insert("exhaustive".into(), json!(false));
+        let ev = json!({
+            "property_id": self.id, "tier": self.tier.name(), "seed": self.seed, "level": self.level,
+            "coverage": Value::Object(cov), "assumptions": self.assumptions.into_inner().unwrap(),
+            "wall_s": self.start.elapsed().as_secs_f64(), "violations": violations,
+        });
+        let _ = std::fs::create_dir_all(format!("{VERIF}/evidence"));
+        let _ = std::fs::write(format!("{VERIF}/evidence/{}.json", self.id), serde_json::to_string_pretty(&ev).unwrap() + "\n");
+        say(&format!("{} {}: violations={violations}", self.id, self.tier.name()));
+    }
+
     /// Writes evidence, prints verdict lines, exits.
     /// `replay`: re-executes a stored case and returns the (signature, what) it produces, if any.
     pub fn finish(
@@ -209,8 +249,19 @@ impl Check {
         exhaustive: bool,
         replay: &dyn Fn(&Value) -> Option<(String, String)>,
     ) -> ! {
-        let known = load_known(&self.id);
-        let viols = self.viols.into_inner().unwrap();
+        let c18 = c18_mode();
+        let report_id = if c18.is_some() { "C18".to_string() } else { self.id.clone() };
+        let known = load_known(&report_id);
+        let mut viols = self.viols.into_inner().unwrap();
+        let mut functional_ignored = 0u64;
+        if c18.is_some() {
+            // only precondition failures are C18's business; functional mismatches belong to the
+            // property whose space is being re-executed
+            let before: u64 = viols.values().map(|v| v.count).sum();
+            viols.retain(|_, v| is_precondition_failure(&v.what));
+            let after: u64 = viols.values().map(|v| v.count).sum();
+            functional_ignored = before - after;
+        }
         let mut lines = vec![];
         let mut n_unknown = 0u64;
         let mut n_known = 0u64;
@@ -235,7 +286,7 @@ impl Check {
         for (sig, v) in order {
             if let Some(k) = known.iter().find(|k| k.matches(sig)) {
                 n_known += v.count;
-                lines.push(format!("KNOWN-FINDING: property={} {} [{}] ({} cases)", self.id, k.what, sig, v.count));
+                lines.push(format!("KNOWN-FINDING: property={} {} [{}] ({} cases)", report_id, k.what, sig, v.count));
                 continue;
             }
             n_unknown += v.count;
@@ -243,7 +294,7 @@ impl Check {
                 continue;
             }
             // confirm by replay before printing
-            let case = json!({"property": self.id, "signature": sig, "what": v.what, "case": v.case});
+            let case = json!({"property": self.id, "reported_as": report_id, "profile": c18.clone().unwrap_or_else(|| "release".into()), "signature": sig, "what": v.what, "case": v.case});
             match guard(|| replay(&v.case)) {
                 Ok(Some((s2, _))) if &s2 == sig => {}
                 Ok(other) => machinery_error(&format!(
@@ -252,11 +303,11 @@ impl Check {
                 )),
                 Err(p) => machinery_error(&format!("replay of violation [{sig}] panicked in the harness: {p}")),
             }
-            let path = format!("{VERIF}/replays/{}-{:016x}.json", self.id, fnv(sig));
+            let path = if c18.is_some() { format!("{VERIF}/replays/C18-{}-{:016x}.json", self.id, fnv(sig)) } else { format!("{VERIF}/replays/{}-{:016x}.json", self.id, fnv(sig)) };
             if let Err(e) = std::fs::write(&path, serde_json::to_string_pretty(&case).unwrap()) {
                 machinery_error(&format!("cannot write {path}: {e}"));
             }
-            lines.push(format!("VIOLATION property={} replay={}", self.id, path));
+            lines.push(format!("VIOLATION property={} replay={}", report_id, path));
             lines.push(format!("  what: {} [{}] ({} cases)", v.what, sig, v.count));
             printed += 1;
         }
@@ -271,7 +322,7 @@ impl Check {
                 eprintln!("  class: {c}  x{n}");
             }
         }
-        let n_unknown = if n_unknown > 0 { n_unknown.max(self.viol_total.load(Ordering::Relaxed).saturating_sub(n_known)) } else { 0 };
+        let n_unknown = if n_unknown > 0 && c18.is_none() { n_unknown.max(self.viol_total.load(Ordering::Relaxed).saturating_sub(n_known)) } else { n_unknown };
         let wall = self.start.elapsed().as_secs_f64();
         let mut cov = self.extra.into_inner().unwrap();
         let evals = self.evals.load(Ordering::Relaxed);
@@ -283,6 +334,9 @@ impl Check {
         cov.insert("exhaustive".into(), json!(exhaustive));
         cov.insert("distinct_violation_signatures".into(), json!(viols.len()));
         cov.insert("known_finding_cases".into(), json!(n_known));
+        if c18.is_some() {
+            cov.insert("functional_violations_ignored_in_c18_mode".into(), json!(functional_ignored));
+        }
         let ev = json!({
             "property_id": self.id,
             "tier": self.tier.name(),
@@ -293,8 +347,9 @@ impl Check {
             "wall_s": wall,
             "violations": n_unknown,
         });
-        let _ = std::fs::create_dir_all(format!("{VERIF}/evidence"));
-        let path = format!("{VERIF}/evidence/{}.json", self.id);
+        let evdir = if c18.is_some() { format!("{VERIF}/target/c18") } else { format!("{VERIF}/evidence") };
+        let _ = std::fs::create_dir_all(&evdir);
+        let path = format!("{evdir}/{}.json", self.id);
         if let Err(e) = std::fs::write(&path, serde_json::to_string_pretty(&ev).unwrap() + "\n") {
             machinery_error(&format!("cannot write {path}: {e}"));
         }
